@@ -277,5 +277,36 @@ func Schemas(thorough bool) (schemas []M, leaves []M, comps M) {
 			}
 		}
 	}
+	// named wrappers around an inline leaf whose pattern / multipleOf is written nowhere else in the
+	// document (eight spellings of "starts with a", eight primes): whatever table a generated
+	// validator looks its compiled pattern or rational up in must hold the entry for every position a
+	// leaf can sit in - item of a named array, of an array of arrays, value of a named map, member of
+	// a named object, behind a named alias - used as the body and as a member of the body
+	pats := []string{"^a{1}", "^[a]", "^(a)", "^(?:a)", "^a+?", "^a|^a", "^a{1,2}", "^aa*"}
+	primes := []int{3, 7, 11, 13, 17, 19, 23, 29}
+	wrap := []func(leaf M) M{
+		func(l M) M { return M{"type": "array", "items": l} },
+		func(l M) M { return M{"type": "array", "items": M{"type": "array", "items": l}} },
+		func(l M) M { return M{"type": "object", "additionalProperties": l} },
+		func(l M) M { return M{"type": "object", "properties": M{"m": l}} },
+		func(l M) M { return M{"type": "array", "nullable": true, "items": l} },
+		func(l M) M { return M{"type": "object", "properties": M{"l": M{"type": "array", "items": l}}} },
+		func(l M) M {
+			return M{"type": "array", "maxItems": 2, "items": M{"type": "object", "properties": M{"m": l}}}
+		},
+		func(l M) M { return l },
+	}
+	for i, w := range wrap {
+		ns, ni := fmt.Sprintf("PWs%d", i), fmt.Sprintf("PWi%d", i)
+		comps[ns] = w(M{"type": "string", "pattern": pats[i]})
+		comps[ni] = w(M{"type": "integer", "multipleOf": primes[i]})
+		for _, n := range []string{ns, ni} {
+			schemas = append(schemas, cref(n), M{"type": "object", "properties": M{"p": cref(n)}})
+		}
+		if i == len(wrap)-1 { // the leaf itself as a component: also behind a component that only refers to it
+			comps["PWsAlias"], comps["PWiAlias"] = cref(ns), cref(ni)
+			schemas = append(schemas, M{"type": "array", "items": cref("PWsAlias")}, M{"type": "array", "items": cref("PWiAlias")})
+		}
+	}
 	return schemas, leaves, comps
 }
